@@ -237,6 +237,35 @@ Proof.
   intros ce Hce. apply packable_exact. apply Hp; exact Hce.
 Qed.
 
+(** no under-billing (ANY worker size, ANY job, both clouds, every resource of the worker): the job holds [wf] 1024ths of the
+    worker where [wf] is its exact share of the cores, 1024 * cpu / (cores * 1000), rounded DOWN to a whole number, and is
+    billed [share_amount]: disk GiB x wf, wf of the vm / ip fee, count x wf of the accelerators; its own millicores; its own MiB *)
+Theorem gen_job_share_floor c cores r k (j : job) :
+  0 < cores -> kind_of c r = Some k -> worker_resource k = true ->
+  exists wf, wf * (cores * 1000) <= 1024 * j_cpu j < (wf + 1) * (cores * 1000) /\
+             billed_for c cores r j = Billed (share_amount k wf j).
+Proof.
+  intros Hc Hk Hw. destruct (job_share_floor cores k j Hc Hw) as (wf & Hb & Hq).
+  exists wf. split; [exact Hb|]. rewrite billed_for_eq, Hk. exact Hq.
+Qed.
+
+(** a pool worker packed EXACTLY (core requests add up to all the cores) is billed to its jobs in full, resource by resource *)
+Theorem gen_pool_exact_packing (c : cloud) cores mpc r (reqs : list (Z * Z)) :
+  is_power_two cores = true -> cores <= 256 -> 0 < mpc -> worker_res c r ->
+  (forall ce, In ce reqs -> packable (fst ce)) ->
+  (forall ce, In ce reqs -> job_memory (mpc * mib) (fst ce) mod mib = 0) ->
+  zsum fst reqs = cores * 1000 ->
+  zsum (fun ce => billed (billed_for c cores r (pool_job (mpc * mib) ce))) reqs
+  = billed (billed_for c cores r (whole cores (mpc * mib * cores))).
+Proof.
+  intros Hp Hle Hm (k & Hk & Hw & Hn) Hpk Hmib Hs.
+  rewrite billed_for_eq, Hk.
+  rewrite (zsum_ext (fun ce => billed (billed_for c cores r (pool_job (mpc * mib) ce)))
+                    (fun ce => billed (job_quantity cores k (pool_job (mpc * mib) ce))))
+    by (intros ce; rewrite billed_for_eq, Hk; reflexivity).
+  unfold mib in *. apply pool_exact_packing; try assumption. lia.
+Qed.
+
 Lemma gcp_pool_entry wt cores mt mpc :
   In (wt, cores, mt, true, mpc) G.gcp_pool_machines -> is_power_two cores = true -> cores <= 256 ->
   exists memory, find_gcp_machine mt G.gcp_machines = Some (wt, cores, memory) /\ memory = mpc * mib * cores /\ 0 < mpc /\ 0 < cores.
